@@ -3,8 +3,18 @@ from __future__ import annotations
 from classify_checks import *
 
 PID = "C02"
-THEOREMS = CLOSURE_THEOREMS + ["PauLie.C02.C02_shape_checker"]
-IMPORTS = CLOSURE_IMPORTS + ["PauLieVerif.Properties.C02Shape"]
+THEOREMS = CLOSURE_THEOREMS + ["PauLie.C02.C02_shape_checker"] + [
+    # closure preservation of the reduction for ALL inputs, conditional on the executable certificate checks of the guarded model
+    "PauLie.C02.C02_closure_partial", "PauLie.C02.C02_classify_partial", "PauLie.C02.C02_closure_guarded", "PauLie.C02.C02_erasure",
+    "PauLie.C02.C02_closure_pipeline", "PauLie.C02.C02_closure_lit", "PauLie.C02.C02_closure_replace",
+    "PauLie.C02.C02_closure_append", "PauLie.C02.C02_closure_remove", "PauLie.C02.C02_closure_appendDelayed",
+    "PauLie.C02.C02_closure_checkDependency",
+    "PauLie.C02.C02_closure_stepI", "PauLie.C02.C02_closure_stepII", "PauLie.C02.C02_closure_appendFast",
+    "PauLie.C02.C02_closure_stepIII", "PauLie.C02.C02_closure_litCenter", "PauLie.C02.C02_closure_stepIV",
+    "PauLie.C02.C02_closure_stepV", "PauLie.C02.C02_closure_stepVI", "PauLie.C02.C02_closure_stepVII",
+    "PauLie.C02.C02_spec_rearrange", "PauLie.C02.C02_spec_contract", "PauLie.C02.C02_spec_drop", "PauLie.C02.C02_spec_twist",
+    "PauLie.C02.C02_spec_lit_verdict", "PauLie.C02.C02_spec_triple", "PauLie.C02.C02_spec_odd"]
+IMPORTS = CLOSURE_IMPORTS + ["PauLieVerif.Properties.C02Shape", "PauLieVerif.Properties.C02"]
 
 def batch_oracle(lines, outs):
     colls = [inputs_of(l) for l in lines]
@@ -28,6 +38,9 @@ def batch_oracle(lines, outs):
         n = len(colls[k][0]) if colls[k] else 0
         idx.append(k)
         req.append(G.line_of("subgraphs", distinct))
+        # the guarded model (Model/MorphG.lean): the same reduction with a certificate check at every move; `guards=ok` on a
+        # complete run that lost nothing implies closure preservation at ANY n (theorem C02_closure_partial)
+        req.append(G.line_of("guards", colls[k]))
         for m in morphs:
             req.append(f"shape {m}")
         if n <= 6:
@@ -41,6 +54,19 @@ def batch_oracle(lines, outs):
         deps = lst(f["deps"])
         n = len(colls[k][0]) if colls[k] else 0
         comps = rep[pos]; pos += 1
+        gd = rep[pos]; pos += 1
+        if not res[k]:
+            fg = fields(gd)
+            if gd.startswith("!") or "guards" not in fg:
+                res[k] = f"guarded model failed on {','.join(colls[k])}: {gd[:120]}"
+            elif fg["guards"] != "ok":
+                res[k] = (f"closure certificate: a move of the reduction could not be certified as closure-preserving ({fg['guards']}, tags {fg.get('tags')}) "
+                          f"for {','.join(colls[k])}")
+            elif fg.get("complete") != "T" or fg.get("lost") != "0":
+                res[k] = f"closure certificate: the reduction was incomplete or gave up a generator ({gd[:160]}) for {','.join(colls[k])}"
+            elif fg.get("morphs") != f["morphs"] or sorted(lst(fg.get("deps", "-"))) != sorted(deps):
+                res[k] = (f"closure certificate is about another run: guarded model legs/dependents {fg.get('morphs')} / {fg.get('deps')} "
+                          f"differ from the implementation's {f['morphs']} / {f['deps']}")
         ncomp = 0 if comps == "-" else len(comps.split("|"))
         if ncomp != len(morphs) and not res[k]:
             res[k] = f"{len(morphs)} canonical graphs for {ncomp} connected components of {','.join(colls[k])}"
@@ -77,13 +103,18 @@ def build_streams(rng, tier):
         history_stream("C02", rng, tier),
     ]
 
-RULE = ("same generator as C01 (n<=5, thorough 6): closure of the canonical vertices == closure of the generators and dependents inside it, "
+RULE = ("closure preservation at ANY n by certificate: the guarded Lean model (same reduction, local certificate check at every move, proved: "
+        "certificates ok => Clo(vertices) = Clo(generators) and dependents inside, theorem C02_closure_partial) must certify the run and reproduce "
+        "the implementation's legs and dependents; in addition, "
+        "same generator as C01 (n<=5, thorough 6): closure of the canonical vertices == closure of the generators and dependents inside it, "
         "both closures from the Lean-verified checker; shape (exact star of paths, Lean checker) and accounting (vertices+dependents == "
         "distinct inputs, one graph per component) also on up to 16 (thorough 24) qubits. non-trivial: has dependents or several legs/components")
 
 def main(tier):
     return standard_main(PID, tier, "other", THEOREMS, IMPORTS, build_streams, rule=RULE,
-        assumptions=["closure equality per input for n<=6 only; shape/accounting at any n; closure preservation of the reduction moves for ALL inputs is the content of arXiv:2408.00081 and is not proved"])
+        assumptions=["closure preservation is PROVED for all inputs conditional on the executable certificate checks of the guarded model (C02_closure_partial); "
+                     "that the checks always succeed (the graph-shape theorem of arXiv:2408.00081) is not proved: it is evaluated per input at any n (command `guards`), "
+                     "and cross-checked by brute-force closure equality for n<=6"])
 
 def replay(path):
     r = json.load(open(path)); line = r.get("line")
